@@ -208,3 +208,25 @@ def rules(t):
     import rules.netsize as NS_
     out.append(NS_.decoder_floor_rule(t, "C16.k"))
     return out
+
+_rules_C16_sw = rules
+def rules(t, *a, **kw):
+    import rules.wave5 as W5
+    out = _rules_C16_sw(t, *a, **kw)
+    out.append(W5.size_window(t, "C16.l"))
+    return out
+
+_rules_C16_w5d = rules
+def rules(t, *a, **kw):
+    import rules.wave5 as W5
+    out = _rules_C16_w5d(t, *a, **kw)
+    out.append(W5.address_codec_identity(t, "C16.m"))
+    return out
+
+_rules_C16_w6 = rules
+def rules(t, *a, **kw):
+    import rules.wave6 as W6
+    out = _rules_C16_w6(t, *a, **kw)
+    out.append(W6.stale_index(t, "C16.n"))
+    out.append(W6.ack_record_value(t, "C16.o"))
+    return out
